@@ -273,6 +273,11 @@ def nested_partial_checks(rep, mod, d, inner):
     return n
 
 
+class _PartialSubclass(functools.partial):
+    """a partial object of a subclass, as libraries define to give partials a name or a repr"""
+    __slots__ = ()
+
+
 def discovery_checks(ctx, rep, sigs):
     ns = {}
     exec(compile(PROGS, '<c19-progs>', 'exec'), ns)
@@ -323,6 +328,29 @@ def discovery_checks(ctx, rep, sigs):
                               {'kind': 'discover', 'sig': d})
             if got['deps'].get(register_fn(p)) != 0 and 0 not in [v for k, v in sigtools.signature(p).sources['+depths'].items() if k is p]:
                 rep.violation('C19:discover-depth', 'partial object does not have depth 0 in %s' % (got['deps'],), {'kind': 'discover', 'sig': d})
+            # an instance of a SUBCLASS of functools.partial is a partial object too (seeded change C19-m11:
+            # discovery dispatched on the exact type): plain retrieval and discovery must both look through it,
+            # also when the subclass instance is the bound callee of another one
+            for label, psub, want_sig in (('PartialSubclass(w_pos, inner)', _PartialSubclass(mod.w_pos, inner), inner_sig),
+                                          ('PartialSubclass(w_pos, PartialSubclass(inner))',
+                                           _PartialSubclass(mod.w_pos, _PartialSubclass(inner)), inner_sig)):
+                n += 1
+                for how, retrieve in (('sigtools.signature', sigtools.signature), ('signatures.signature', None)):
+                    try:
+                        if retrieve is None:
+                            if 'w_pos, inner' not in label:
+                                continue
+                            gots = describe_sig(PS.signature(_PartialSubclass(inner)))
+                        else:
+                            gots = describe_sig(retrieve(psub))
+                    except Exception as e:  # noqa: BLE001
+                        rep.violation('C19:discover-subclass', '%s(%s) raised %s for inner%s' % (how, label, classify_exc(e), show_sig(d)),
+                                      {'kind': 'discover', 'sig': d})
+                        continue
+                    if shape_of(gots) != shape_of(want_sig):
+                        rep.violation('C19:discover-subclass', '%s of %s with inner%s: got %s, expected the parameters of inner (an instance of a '
+                                      'subclass of functools.partial is a partial object)' % (how, label, show_sig(d), show_sig(gots)),
+                                      {'kind': 'discover', 'sig': d})
             # the partial of a BOUND METHOD: the instance comes first, then the partial's positionals
             for label, pm in (('partial(inst.run, inner)', functools.partial(mod.plain_inst.run, inner)),
                               ("partial(inst.run2, 't', inner)", functools.partial(mod.plain_inst.run2, 't', inner)),
